@@ -73,7 +73,7 @@ func init() {
 		defer done()
 		var mu sync.Mutex
 		// (with a string literal terminal holding bytes that are not UTF-8: the markdown path must not re-encode the file)
-		for _, seed := range append(allSeeds(tier), gram.Seed{Name: "strlit-not-utf8", Text: "a : 'a' ;\nS : a \"x\xc3\" | \"\xff\" S ;\n"}) {
+		for _, seed := range append(allSeeds(tier), gram.Seed{Name: "strlit-not-utf8", Text: "a : 'a' ;\nb : '\U0001F600' | '\uff0b' | '\ue000' | '\ufffd' ;\nS : a \"x\xc3\" | \"\xff\" S | b \"\uff0b\U0001F600\" ;\n"}) {
 			toks, err := gram.Lexemes(seed.Text)
 			if err != nil {
 				ev.Inconsistent("seed %s: %v", seed.Name, err)
